@@ -161,6 +161,10 @@ TWINS = [
     ('interp-fixes-shortest', 'C11', 'super_pose.py', 'return self.__class__([base.trinterp(start, self.A, s=_s) for _s in s])', 'return self.__class__([base.trinterp(start, self.A, s=_s, shortest=True) for _s in s])', 'R14', 'SMPose.interp'),
     ('iszerovec-squared-norm', 'C14', 'base/vectors.py', '    return np.linalg.norm(v) < tol * _eps\n\ndef iszero', '    return np.dot(v, v) < tol * _eps\n\ndef iszero', 'R4', 'iszerovec'),
     ('isprismatic-direct-slice', 'C18', 'twist.py', '            return [base.iszerovec(x.w) for x in self]', '            return [base.iszerovec(S[-self.N:]) for S in self.data]', 'R8', 'SMTwist.isprismatic'),
+    ('isvector-column-test', 'C15', 'base/argcheck.py', 'or (s[0] > 0 and s[1] == 1)', 'or (s[0] > 0 and s[1] != 1)', 'R4', 'isvector'),
+    ('isvector-row-or', 'C15', 'base/argcheck.py', 'or (s[0] == 1 and s[1] > 0)', 'or (s[0] == 1 or s[1] > 0)', 'R4', 'isvector'),
+    ('getvector-array-without-dtype', 'C15', 'base/argcheck.py', "        elif out == 'array':\n            return np.array(v, dtype=dt)", "        elif out == 'array':\n            return np.array(v)", 'R10g', 'getvector'),
+    ('getunit-inverse-factor', 'C15', 'base/argcheck.py', '            return v * math.pi / 180', '            return v * 180 / math.pi', 'R10g', 'getunit'),
     ('cross-entry', 'C13', 'base/vectors.py', '        u[2] * v[0] - u[0] * v[2],', '        u[0] * v[2] - u[2] * v[0],', 'R16', 'cross'),
     ('tr2jac-notranspose', 'C13', 'base/transforms3d.py', '        return np.block([[R.T, Z], [Z, R.T]])', '        return np.block([[R, Z], [Z, R]])', 'R16', 'tr2jac'),
     # ---- C14
